@@ -242,7 +242,7 @@ Proof.
 Qed.
 Lemma noalloc_assign_one mv L sb db fls fld x k : noalloc (snd (assign_one mv L sb db fls fld x k)).
 Proof.
-  unfold assign_one. destruct (nth k (runs_asg L) RSkip).
+  unfold assign_one. destruct (nth k (runs_asg mv L) RSkip).
   - apply noalloc_nil.
   - apply noalloc_assign_objs.
   - cbn [snd]. apply noalloc_cons; [reflexivity|apply noalloc_nil].
